@@ -354,3 +354,19 @@ Proof.
   unfold build. assert (H : InitInv b0) by (split; cbn; [constructor|exact I]). revert H. generalize b0.
   induction cs as [|c cs IH]; intros b H; cbn; [exact H|]. apply IH. apply init_step. exact H.
 Qed.
+
+(* The kind test of proc_location_init is what the invariant rests on: a builder that, like proc_edge_begin does for edge ends, lets an init name "a location
+   or a branchpoint" records an initial location that is none of the template's locations. *)
+Definition step_lax (b : bstate) (c : cb) : bstate :=
+  match c with
+  | ProcInit n => on_cur b (fun t => if is_loc t n || is_bp t n then mkdtempl (dt_name t) (dt_locs t) (dt_bps t) (Some n) (dt_edges t) else t)
+  | _ => step b c
+  end.
+Example init_of_a_branchpoint_breaks_the_invariant :
+  let cs := [ProcBegin 0; ProcLocation (Named 1) None None; ProcBranchpoint (Anon 2); ProcInit (Anon 2); ProcEnd] in
+  ~ InitInv (fold_left step_lax cs b0) /\ InitInv (build cs b0) /\ map dt_init (templates (build cs b0)) = [None].
+Proof.
+  cbn. split; [|split; [split; [repeat constructor|exact I]|reflexivity]].
+  intros [H _]. inversion H as [|? ? H1 _]; subst. unfold init_ok in H1. cbn in H1. discriminate H1.
+Qed.
+
